@@ -1,4 +1,6 @@
 """C15 — textual and binary encodings round-trip losslessly."""
+import sys
+
 from vlib.runner import Batch
 
 ID = "C15"
@@ -61,6 +63,11 @@ ASSUMPTIONS = [
     "mbstate_t.__count / __value.__wch hold the state); they reach the loop through the public narrow_locale / widen_locale with a std::locale",
 ]
 TRUSTED = ["harness/c15.cpp and the digest/line protocol (vh.hpp, Proto.lean)", "g++ 12 + ASan/UBSan as witness for memory safety of the instantiations"]
+
+# long double witnesses as the unsigned number of the 80 value bits (sign, 15-bit exponent, 64-bit mantissa with explicit integer bit):
+# pi, -0.0, LDBL_MAX, the smallest denormal, another denormal, 1.0, -1.5, LDBL_MIN
+F80_WITNESSES = [(0x4000 << 64) | 0xC90FDAA22168C235, 0x8000 << 64, (0x7FFE << 64) | 0xFFFFFFFFFFFFFFFF, 1, 0x000123456789ABCD,
+                 (0x3FFF << 64) | (1 << 63), (0xBFFF << 64) | (3 << 62), (1 << 64) | (1 << 63)]
 
 INT_TYPES = {"u8": (8, False), "i8": (8, True), "u16": (16, False), "i16": (16, True),
              "u32": (32, False), "i32": (32, True), "u64": (64, False), "i64": (64, True)}
@@ -550,6 +557,11 @@ def batches(rng, tier):
                 ops.append(f"rd {ty} {e} " + hexs([r.below(256) for _ in range(n)]))
     yield Batch("bin-more-types", ops, exhaustive=True,
                 note="bool (both values), char / char8_t / char16_t exhaustively, wchar_t / char32_t / long long / unsigned long long on the lattice + random: the same write / read / swap / convert line as for the fixed-width types")
+    # long double: the native order is an ordinary diff check; the non-native order is the listed known finding (extra_checks)
+    native_tok = "L" if sys.byteorder == "little" else "B"
+    yield Batch("bin-long-double-native-order", [f"bin f80 {native_tok} {v}" for v in F80_WITNESSES] +
+                [f"bin f80 {native_tok} {(r.below(2) << 79) | (r.range(1, 0x7FFE) << 64) | (1 << 63) | r.below(1 << 63)}" for _ in range(200)],
+                note="long double (x87 extended, as the number of its 80 value bits; padding masked) in the machine's own byte order: write, read back, read again, swap twice, convert twice")
     steps = ["w.u8.L.1", "w.u16.B.513", "r.u8.L", "r.u16.B", "r.u16.L", "p", "c", "wc.0a0b", "rc.1", "rc.0", "rc.2"]
     ops = ["bst " + ",".join(sq) for sq in seqs(steps, 4 if thorough else 3)]
     # the four-step scripts that matter most in the quick tier: a failure in the middle, then clear, then traffic again
@@ -864,7 +876,7 @@ def extra_checks(binp, rng, tier, ev):
     ev["coverage"]["utf8_rule"] = {"ops": len(ops), "not_complete_or_failure": len(other) + len(known), "of_these_known_finding_class": len(known),
                                    "rule": "result of widen_locale/narrow_locale in C.utf8 == strict conversion by the plugin's own coder, 'exc'/'none' iff ill-formed"}
     # anything outside the listed class first: it must never be hidden behind the known finding
-    return other[:3] + float_checks(binp, rng, tier, ev) + known[:1]
+    return other[:3] + float_checks(binp, rng, tier, ev) + long_double_checks(binp, ev) + known[:1]
 
 
 # ---------------------------------------------------------------- float / double through decimal text: an exact oracle
@@ -981,6 +993,48 @@ def float_checks(binp, rng, tier, ev):
     return out[:3]
 
 
+def long_double_checks(binp, ev):
+    """long double in the NON-native byte order: the model says what the property demands (the value comes back); the
+    observed corruption is the listed known finding `long-double-non-native-order` (classified below, nothing else is)."""
+    from vlib.runner import run_harness, run_driver
+    other_tok = "B" if sys.byteorder == "little" else "L"
+    ops = [f"bin f80 {other_tok} {v}" for v in F80_WITNESSES]
+    impl, _ = run_harness(binp, ops)
+    model = run_driver(sys.modules[__name__], ops)
+    out = []
+    for op, m, i in zip(ops, model, impl):
+        if i in ("NOT-RUN", "SKIPPED-AFTER-DEATH", None) or i == m:
+            continue
+        out.append({"kind": "input", "batch": "long-double-non-native-order", "batch_kind": "stateless", "ops": [op], "expected": [m], "observed": [i],
+                    "what": f"implementation and proved model disagree on {op!r}: impl={i!r} model={m!r}"})
+    _SEEN["long_double"] = len(out)
+    ev["coverage"]["long_double_non_native"] = {"ops": len(ops), "round_trip_broken": len(out),
+                                                "rule": "io::write / io::read / swap twice / convert twice of a long double in the byte order that is not the machine's"}
+    return out
+
+
+def is_long_double_class(violation):
+    """ONLY: type f80, the byte order that is not the machine's, a value was returned (has_value) and the stream was used up"""
+    if violation.get("kind") != "input" or violation.get("batch") != "long-double-non-native-order" or not violation.get("ops"):
+        return False
+    t = violation["ops"][-1].split()
+    other_tok = "B" if sys.byteorder == "little" else "L"
+    if len(t) != 4 or t[0] != "bin" or t[1] != "f80" or t[2] != other_tok:
+        return False
+    obs = dict(f.split("=", 1) for f in (violation.get("observed") or [""])[-1].split() if "=" in f)
+    exp = dict(f.split("=", 1) for f in (violation.get("expected") or [""])[-1].split() if "=" in f)
+    # the model demands the round trip; the implementation returned SOME value from exactly the 16 bytes it wrote
+    return (exp.get("r") == t[3] and exp.get("ss") == t[3] and exp.get("cc") == t[3] and obs.get("r") not in (None, "none")
+            and obs.get("r2") == "none" and len(obs.get("w", "")) == 32)
+
+
+def _long_double_entry(findings):
+    for f in findings:
+        if f.get("property") == "C15" and f.get("status") == "known" and (f.get("match") or {}).get("kind") == "long-double-non-native-order":
+            return f
+    return None
+
+
 def _known_entry(findings):
     for f in findings:
         if f.get("property") == "C15" and f.get("status") == "known" and (f.get("match") or {}).get("kind") == "incomplete-sequence-before-embedded-nul":
@@ -991,6 +1045,8 @@ def _known_entry(findings):
 def classify(violation, findings):
     """Only 'widen carries an incomplete sequence across an embedded NUL' is the known finding; every other result for
     ill-formed input and every truncation stays a VIOLATION."""
+    if is_long_double_class(violation):
+        return _long_double_entry(findings)
     if violation.get("kind") != "input" or violation.get("batch") != "utf8-rule" or not violation.get("ops"):
         return None
     obs = (violation.get("observed") or [""])[-1]
@@ -1006,6 +1062,9 @@ def known_finding_lines(findings, ev):
     f = _known_entry(findings)
     if f is not None and _SEEN["known_class"] > 0:
         out.append(f["line"])
+    g = _long_double_entry(findings)
+    if g is not None and _SEEN.get("long_double", 0) > 0:
+        out.append(g["line"])
     # the exhaustive 8-bit round-trip batch (rtds N i8/u8 ...) contains the six whitespace values on every run; implementation and
     # model agree there (both report the failure), so it is not a diff - the finding is listed because the literal property text
     # ("for every integer") does not hold on them
